@@ -19,6 +19,10 @@ def rstGnssStop : Nat × Nat := (0x0000, 0x08)
     measRate = ⌊1000 / r⌋ ms, navRate = 1 cycle -/
 def rate (r : Nat) : Nat × Nat := (1000 / r, 1)
 
+/-- …and for `num/den` solutions per second: the measurement period is the largest whole number of milliseconds that is
+    not longer than `den/num` seconds -/
+def rateQ (num den : Nat) : Nat × Nat := (1000 * den / num, 1)
+
 /-- UBX-MGA-INI-TIME_UTC payload (24 bytes) for a UTC date/time with unknown leap seconds, 10 s accuracy:
     type 0x10, version 0, ref 0, leapSecs 0x80 (= −128: unknown), year (U2 LE), month, day, hour, minute,
     second, reserved, ns = 0 (U4), tAccS = 10 (U2), reserved[2], tAccNs = 0 (U4) -/
